@@ -99,8 +99,12 @@ func runMulti(seed int64, shards int, rep *concReport) {
 	// LMOVE back and forth, SMOVE back and forth, RENAME of a token between two names, single-key traffic on the same stripes
 	worker(2, func(rng *rand.Rand, i int) []string { return []string{"LMOVE", "la", "lb", "LEFT", "RIGHT"} }, nil)
 	worker(3, func(rng *rand.Rand, i int) []string { return []string{"LMOVE", "lb", "la", "LEFT", "RIGHT"} }, nil)
-	worker(4, func(rng *rand.Rand, i int) []string { return []string{"SMOVE", "sa", "sb", fmt.Sprintf("m%d", rng.Intn(6))} }, nil)
-	worker(5, func(rng *rand.Rand, i int) []string { return []string{"SMOVE", "sb", "sa", fmt.Sprintf("m%d", rng.Intn(6))} }, nil)
+	worker(4, func(rng *rand.Rand, i int) []string {
+		return []string{"SMOVE", "sa", "sb", fmt.Sprintf("m%d", rng.Intn(6))}
+	}, nil)
+	worker(5, func(rng *rand.Rand, i int) []string {
+		return []string{"SMOVE", "sb", "sa", fmt.Sprintf("m%d", rng.Intn(6))}
+	}, nil)
 	worker(6, func(rng *rand.Rand, i int) []string {
 		if i%2 == 0 {
 			return []string{"RENAME", "tok", "tok2"}
